@@ -11,8 +11,8 @@ TECH_K = 'contract harnesses on the real crate: Kani/CBMC, loop-free over the fu
 CLAIMED = {
     'C02': dict(
         cat='proof', ref='DESIGN 4/C02',
-        text='Every function of stream::Parser (from_parser, parse, parse_payload, parse_head, consume_stream, compress, discard_stream, consume_output, set_stream, cmp_input_streams) carries a functional contract over the abstract view (parsed / raw / output queue) and the geometry invariant wf; Verus discharges every clause for all buffer contents, lengths, payload/padding counters and destination sizes. parse_payload: exactly min(payload, available[, room]) bytes move to the stream buffer or to the front of dest, in order, once; parse_head: header dispatch equals the specification-level head_action (stream / skip / hold-back / abort / cant-mpx / values).',
-        note='Proved per call against step contracts (what one call does to the abstract state); the whole-history statement (any schedule of calls) is the composition of these contracts and is not itself a machine-checked lemma yet. Trusted: copy_within = memmove, <&mut [u8] as Write>::write (both cross-checked bounded by Kani), RecordHeader::from_bytes contract (proved complete by Kani), 64-bit usize, allocations <= isize::MAX, rewrite rules R1-R13.',
+        text='Every function of stream::Parser (from_parser, parse, parse_payload, parse_head, consume_stream, compress, discard_stream, consume_output, set_stream, cmp_input_streams) carries a functional contract over the abstract view (parsed / raw / output queue) and the geometry invariant wf; Verus discharges every clause for all buffer contents, lengths, payload/padding counters and destination sizes. parse_payload: exactly min(payload, available[, room]) bytes move to the stream buffer or to the front of dest, in order, once; parse_head: header dispatch equals the specification-level head_action (stream / skip / hold-back / abort / cant-mpx / values); parse: one call equals the specification run s_run over the unread bytes (state, bytes consumed, bytes appended to the stream buffer, replies, end-of-stream flag, error), proved with a loop invariant relating the run from the initial state to the steps taken so far.',
+        note='Proved per call (parse = s_run on the bytes available; every other method against its whole-view contract); the whole-history statement (any schedule of calls over a whole record sequence) is the composition of these contracts and is not itself a machine-checked lemma. For dest = Some(buf) the run-level clause covers counts/state/replies and the byte content written to buf is proved at step level (parse_payload, nested-prophecy clause). Trusted: copy_within = memmove, <&mut [u8] as Write>::write (both cross-checked bounded by Kani), RecordHeader::from_bytes contract (proved complete by Kani), 64-bit usize, allocations <= isize::MAX, rewrite rules R1-R13.',
         tech=TECH_V),
     'C03': dict(
         cat='proof', ref='DESIGN 4/C03',
@@ -50,12 +50,12 @@ CLAIMED.update({
     'C01': dict(
         cat='proof', ref='DESIGN 4/C01',
         text='Every function of the request-preamble parser (StateBuilder::into_skip, SkipState/GetValuesState/HeaderState/ParamsState::drive, ParamsStateInner::parse_buffered and parse_stream incl. the try_fill!/to_array!/try_head! macros, State::drive, Parser::parse/move_input/into_request/into_stream_parser) is verified by Verus against specification-level step functions written from the FastCGI specification (header_step, params_step, skip_step, values_step, composed by r_run): BeginRequest framing yields exactly the transmitted id/role/flags; cross-record pair reassembly (parse_buffered, both length encodings, every split point) inserts exactly the pairs of the consumed byte prefix, in order, once (log + decode_pairs(carry + consumed), carry = decode_rest(..)); State::drive takes exactly the steps of r_run; for all payload/padding lengths, cuts and buffer contents.',
-        note='The environment map is abstracted to the ordered log of raw (name, value) pairs handed to it (R8): last-value-wins / case-insensitive lookup rest on std HashMap + C19, make_cgivar (lossy UTF-8 + uppercasing) is external. The whole-stream statement (log == decode_pairs(concatenated Params payloads) for every segmentation and chunking) follows from the consumed-prefix contracts by lemma_prefix (machine-checked, nv lemma unit) but the induction over all call histories is not a machine-checked lemma. Trusted: R-rewrites, wrappers listed in evidence, VarInt::read / from_bytes contracts (proved complete by Kani).',
+        note='The environment map is abstracted to the ordered log of raw (name, value) pairs handed to it (R8): last-value-wins / case-insensitive lookup rest on std HashMap + C19, make_cgivar (lossy UTF-8 + uppercasing) is external. Lemma layer (unit reqlemmas, machine-checked): consuming the Params payload in ANY pieces gives log == log0 + decode_pairs(concatenation), carry == decode_rest(concatenation) (lemma_any_segmentation, lemma_segmentation_independent), and decode_pairs(enc_all(pairs)) == pairs (round trip). What is not a checked lemma: the induction tying these to whole call histories of Parser::parse with interleaved non-Params records. Trusted: R-rewrites, wrappers listed in evidence, VarInt::read / from_bytes contracts (proved complete by Kani).',
         tech=TECH_V),
     'C06': dict(
         cat='proof', ref='DESIGN 4/C06',
         text='Config::aligned_bufsize: result >= 24, >= configured size, multiple of 8 and < size+8 (bit-vector proof) for every size <= usize::MAX-7; Parser::parse: an unfinished parser always offers a non-empty input buffer, StuckOnInput is entered exactly when the buffer is full and the specification run needs more input; maximal consumption: parse_buffered / parse_stream / ParamsState::drive leave payload unread only if carry + unread holds no complete pair.',
-        note='The sufficiency half (pairs <= B-13 never get stuck, for all segmentations) follows from maximal consumption + header/padding bounds but is not a machine-checked lemma yet. For buffer_size > usize::MAX-7 (unallocatable) aligned_bufsize returns usize::MAX, which is not a multiple of 8: outside the property quantifier, stated in DESIGN.',
+        note='Sufficiency: machine-checked lemma_incomplete_bound (a retained incomplete prefix of a well-formed pair is shorter than the pair, which is at most 8 + |name| + |value| bytes) + the maximal-consumption clauses; the closing arithmetic over the whole parser (retained < B for pairs <= B-13) is not a single checked lemma. For buffer_size > usize::MAX-7 (unallocatable) aligned_bufsize returns usize::MAX, which is not a multiple of 8: outside the property quantifier, stated in DESIGN.',
         tech=TECH_V),
     'C11': dict(
         cat='proof', ref='DESIGN 4/C11',
